@@ -26,9 +26,11 @@ const F_EXPLICIT: u64 = 1;
 
 #[derive(Default)]
 struct C18Script {
-    /// marker -> timestamps seen on the wire, per frame.
-    seen: BTreeMap<u64, Vec<Option<i64>>>,
+    /// marker -> (timestamp seen on the wire, frame answered UNPREPARED), per frame.
+    seen: BTreeMap<u64, Vec<(Option<i64>, bool)>>,
     error_permille: u64,
+    evict_permille: u64,
+    evicted: std::collections::BTreeSet<u64>,
 }
 
 impl Script for C18Script {
@@ -40,7 +42,32 @@ impl Script for C18Script {
             _ => return Reply::Default,
         };
         if let Some(m) = rq.marker {
-            self.seen.entry(m).or_default().push(ts);
+            // The node may have evicted the prepared statement: the EXECUTE is answered
+            // UNPREPARED, the driver re-prepares and sends it again (same timestamp rules).
+            let mut unprepared = false;
+            if let Request::Execute { id, .. } = req {
+                if self.evict_permille > 0
+                    && !self.evicted.contains(&m)
+                    && tape::chance("c18:evict", self.evict_permille, 1000)
+                    && w.cluster.nodes[rq.node].prepared.remove(id).is_some()
+                {
+                    self.evicted.insert(m);
+                    w.fault(Fault::Evict);
+                }
+                // Whoever evicted it: an EXECUTE for an id the node does not know is
+                // answered UNPREPARED, not executed.
+                unprepared = !w.cluster.nodes[rq.node].prepared.contains_key(id);
+            }
+            if let Request::Batch(b) = req {
+                unprepared = b.statements.iter().any(|(st, _)| match st {
+                    crate::wire::BatchStmt::Prepared(id) => !w.cluster.nodes[rq.node].prepared.contains_key(id),
+                    _ => false,
+                });
+            }
+            self.seen.entry(m).or_default().push((ts, unprepared));
+            if unprepared {
+                return Reply::Default;
+            }
             if self.error_permille > 0 && tape::chance("c18:error", self.error_permille, 1000) {
                 // A retryable error: the retried attempt takes a fresh timestamp.
                 return Reply::Error {
@@ -136,6 +163,7 @@ async fn main(plan: Plan) -> Outcome {
         let mut w = world::world();
         w.script = Some(Box::new(C18Script {
             error_permille: [0, 100][tape::choose("c18:error_rate", 2) as usize],
+            evict_permille: [0, 150][tape::choose("c18:evict_rate", 2) as usize],
             ..Default::default()
         }));
     }
@@ -152,10 +180,15 @@ async fn main(plan: Plan) -> Outcome {
             .known_node_addr(client::contact_point(0))
             .pool_size(cfg.pool.clone())
             .fetch_schema_metadata(false)
-            .timestamp_generator(Arc::new(if tape::chance("c18:warnings", 1, 2) {
-                MonotonicTimestampGenerator::new()
-            } else {
-                MonotonicTimestampGenerator::new().without_warnings()
+            .timestamp_generator(Arc::new(match tape::choose("c18:warnings", 3) {
+                0 => MonotonicTimestampGenerator::new().without_warnings(),
+                1 => MonotonicTimestampGenerator::new(),
+                // Warnings with a seeded skew threshold and no rate limit: the warning
+                // branch itself runs whenever the clock is far enough behind.
+                _ => MonotonicTimestampGenerator::new().with_warning_times(
+                    Duration::from_micros([0, 1, 1000, 1_000_000][tape::choose("c18:warn_threshold", 4) as usize]),
+                    Duration::ZERO,
+                ),
             }))
             .default_execution_profile_handle(
                 scylla::client::execution_profile::ExecutionProfile::builder()
@@ -268,7 +301,7 @@ async fn main(plan: Plan) -> Outcome {
     let mut generated: BTreeMap<i64, u64> = BTreeMap::new();
     let mut frames = 0u64;
     for (m, list) in &seen {
-        for ts in list {
+        for (ts, unprepared) in list {
             frames += 1;
             let Some(ts) = ts else {
                 out.violation("c18.no_timestamp", format!("write marker {m} reached the node without a client timestamp although a generator is configured"));
@@ -281,6 +314,8 @@ async fn main(plan: Plan) -> Outcome {
                         format!("statement marker {m} has explicit timestamp {} but {ts} was on the wire", 7_000_000 + *m as i64),
                     );
                 }
+            } else if *unprepared {
+                // Not executed: the repeated EXECUTE may carry the same generated value.
             } else if let Some(prev) = generated.insert(*ts, *m) {
                 out.violation(
                     "c18.duplicate_on_wire",
